@@ -87,9 +87,13 @@ func main() {
 		c2 := cfg
 		c2.Tags = strings.Trim(cfg.Tags+",trace", ",")
 		runs = append(runs, cfgRun{"tags=trace", c2})
+		// -tags debug adds the pprof endpoint file; -tags norecover flips lib.Recover() (constant false):
+		// the recover barriers become dead code, which must not make any rule pass vacuously
 		c3 := cfg
-		c3.GOARCH = "386"
-		runs = append(runs, cfgRun{"GOARCH=386", c3})
+		c3.Tags = strings.Trim(cfg.Tags+",debug", ",")
+		runs = append(runs, cfgRun{"tags=debug", c3})
+		// (GOARCH=386 was planned but the tree itself does not type-check there:
+		// lib/compress.go compares an int with math.MaxUint32)
 	}
 
 	kf, err := core.LoadFindings(filepath.Join(vd, "known_findings.json"))
